@@ -612,3 +612,219 @@ def realize_mcmc(case):
         ev["exc"] = "%s: %s" % (type(ex).__name__, str(ex)[:200])
     events.append(ev)
     return {"id": case["id"], "events": events}
+
+
+# ----------------------------------------------------------------------------------------------- off the lattice
+def random_real_config(rnd):
+    """a random valid problem over the reals, inside the classes where no known finding applies (period prior in days; custom K
+    prior only without offsets; surveys time-disjoint in list order) - see harness/gauss_oracle.py for the fields"""
+    poly = rnd.choice([1, 1, 2, 3])
+    noff = rnd.choice([0, 0, 1, 2])
+    nper = [rnd.randint(2, 9) for _ in range(noff + 1)]
+    t, lab = [], []
+    start = rnd.uniform(-30.0, 60.0)
+    for j, n in enumerate(nper):
+        span = rnd.choice([5.0, 40.0, 300.0])
+        ts = sorted(start + rnd.uniform(0, span) for _ in range(n))
+        t += ts
+        lab += [j] * n
+        start = ts[-1] + rnd.uniform(0.5, 20.0)
+    N = len(t)
+    P = math.exp(rnd.uniform(math.log(1.5), math.log(400.0)))
+    e = rnd.choice([0.0, rnd.uniform(0, 0.6), rnd.uniform(0.6, 0.95)])
+    kkind = "custom" if (noff == 0 and rnd.random() < 0.3) else "default"
+    c = {"t": t, "lab": lab, "y": [rnd.gauss(0, 20.0) for _ in range(N)], "sig2": [rnd.uniform(0.05, 4.0) ** 2 for _ in range(N)],
+         "s2": rnd.choice([0.0, rnd.uniform(0.1, 3.0) ** 2]), "P": P, "e": e, "omega": rnd.uniform(0, 2 * math.pi),
+         "M0": rnd.uniform(0, 2 * math.pi), "poly": poly, "noff": noff, "kkind": kkind, "sK0sq": rnd.uniform(5.0, 60.0) ** 2,
+         "P0": rnd.choice([365.25, 10.0, 100.0]), "maxKsq": rnd.choice([500.0 ** 2, 500.0 ** 2, rnd.uniform(3.0, 40.0) ** 2]),
+         "muK": rnd.choice([0.0, rnd.uniform(-5, 5)]), "varK": rnd.uniform(2.0, 50.0) ** 2,
+         "mu": [rnd.choice([0.0, rnd.uniform(-3, 3)]) for _ in range(poly + noff)],
+         "var": [rnd.uniform(20.0, 120.0) ** 2] + [rnd.uniform(1.0, 9.0) ** 2 for _ in range(noff)]
+                + [(rnd.uniform(0.05, 1.0) / (30.0 ** (i - 1))) ** 2 for i in range(1, poly)]}
+    return c
+
+
+def build_real(c, ua):
+    import astropy.units as u
+    import pymc as pm
+    import thejoker.units as xu
+    from astropy.time import Time
+    from thejoker import JokerPrior, JokerSamples, RVData
+    from thejoker.distributions import FixedCompanionMass
+    kms = u.km / u.s
+    poly, noff = c["poly"], c["noff"]
+    du = U(ua["data"])
+    srcs = []
+    t = np.array(c["t"], dtype=float)
+    lab = np.array(c["lab"], dtype=int)
+    for j in range(noff + 1):
+        idx = np.where(lab == j)[0]
+        sdu = du if j == 0 else U(ua["src_units"][j])
+        tt = Time(T0 + t[idx], format="mjd", scale="tcb")
+        y = (np.array(c["y"])[idx] * kms).to(sdu)
+        err = (np.sqrt(np.array(c["sig2"])[idx]) * kms).to(U(ua["err_units"][j]))
+        srcs.append(RVData(tt, y, err, t_ref=Time(T0, format="mjd", scale="tcb")) if noff == 0 else RVData(tt, y, err))
+    data = srcs[0] if noff == 0 else srcs
+    # with several surveys the reference epoch is the earliest epoch of the merged data
+    tref_shift = 0.0 if noff == 0 else float(np.min(t))
+    ku = U(ua["kprior"])
+    slot_names = ["v0"] + ["dv0_%d" % j for j in range(1, noff + 1)] + ["v%d" % i for i in range(1, poly)]
+    tu = U(ua["slope_t"])
+    with pm.Model() as model:
+        P = xu.with_unit(pm.Uniform("P", np.float64(0.01), np.float64(1000.0)), u.day)
+        e = xu.with_unit(pm.Uniform("e", np.float64(0.0), np.float64(0.99)), u.one)
+        om = xu.with_unit(pm.Uniform("omega", np.float64(0.0), np.float64(2 * np.pi)), u.rad)
+        M0 = xu.with_unit(pm.Uniform("M0", np.float64(0.0), np.float64(2 * np.pi)), u.rad)
+        su = U(ua["ss"])
+        s = xu.with_unit(pm.Uniform("s", np.float64(0.0), np.float64(50000.0)), su)
+        if c["kkind"] == "default":
+            K = xu.with_unit(FixedCompanionMass("K", P=P, e=e, sigma_K0=np.float64((math.sqrt(c["sK0sq"]) * kms).to_value(ku)) * ku,
+                                                P0=np.float64((c["P0"] * u.day).to_value(U(ua["p0"]))) * U(ua["p0"]),
+                                                mu=np.float64((c["muK"] * kms).to_value(ku)),
+                                                max_K=np.float64((math.sqrt(c["maxKsq"]) * kms).to_value(ku)) * ku), ku)
+        else:
+            K = xu.with_unit(pm.Normal("K", np.float64((c["muK"] * kms).to_value(ku)),
+                                       np.float64((math.sqrt(c["varK"]) * kms).to_value(ku))), ku)
+        pars = {"P": P, "e": e, "omega": om, "M0": M0, "s": s, "K": K}
+        offs = []
+        for i, name in enumerate(slot_names):
+            vu = U(ua["lin"][i])
+            power = int(name[1:]) if name.startswith("v") and not name.startswith("dv") else 0
+            unit = vu / tu ** power if power else vu
+            phys = kms / u.day ** power if power else kms
+            var_ = xu.with_unit(pm.Normal(name, np.float64((c["mu"][i] * phys).to_value(unit)),
+                                          np.float64((math.sqrt(c["var"][i]) * phys).to_value(unit))), unit)
+            if name.startswith("dv0"):
+                offs.append(var_)
+            else:
+                pars[name] = var_
+        prior = JokerPrior(pars=pars, poly_trend=poly, v0_offsets=offs, model=model)
+    smp = JokerSamples(poly_trend=poly, n_offsets=noff)
+    smp["P"] = (np.array([c["P"]]) * u.day).to(U(ua["sP"]))
+    smp["e"] = np.array([c["e"]])
+    smp["omega"] = (np.array([c["omega"]]) * u.rad).to(U(ua["sang"]))
+    # M0 of the oracle is relative to t = 0 of c["t"]; the data's reference epoch may lie tref_shift later
+    M0_ref = (c["M0"] - 2 * np.pi * tref_shift / c["P"]) % (2 * np.pi)
+    smp["M0"] = (np.array([M0_ref]) * u.rad).to(U(ua["sang"]))
+    smp["s"] = (np.array([math.sqrt(c["s2"])]) * kms).to(U(ua["ss"]))
+    return data, prior, smp, slot_names, tref_shift
+
+
+def realize_real(case):
+    """one off-lattice problem: the real code's marginal likelihood, posterior mean / covariance and Bayes identity against the
+    floating-point transcription of the specification; returns the deviations (the check applies the tolerances)"""
+    import random as _random
+    import astropy.units as u
+    from thejoker import TheJoker
+    from thejoker.likelihood_helpers import make_full_samples_inmem
+    from . import gauss_oracle as go
+    rnd = _random.Random(case["seed"])
+    c = random_real_config(rnd)
+    L_ = 1 + c["poly"] + c["noff"]
+    ua = random_units(rnd, L_)
+    ua["pprior"] = "d"
+    out = {"id": case["id"], "seed": case["seed"], "c": {k: (v if not isinstance(v, list) or len(v) <= 12 else v[:12]) for k, v in c.items()},
+           "ok": False}
+    try:
+        data, prior, smp, slot_names, shift = build_real(c, ua)
+        kms = u.km / u.s
+        ratio = (1 * kms).to_value(U(ua["data"]))
+        N = len(c["t"])
+        # the oracle works relative to the data's reference epoch: trend columns are powers of (t - t_ref)
+        c2 = dict(c)
+        c2["t"] = [x - shift for x in c["t"]]
+        c2["M0"] = (c["M0"] - 2 * np.pi * shift / c["P"])
+        joker = TheJoker(prior, rng=np.random.default_rng(case["seed"]))
+        with np.errstate(all="ignore"):
+            ll_mem = float(joker.marginal_ln_likelihood(data, smp, in_memory=True)[0])
+            ll_file = float(joker.marginal_ln_likelihood(data, smp)[0])
+        want = go.ln_marginal(c2) - N * math.log(ratio)
+        out.update(ll=ll_mem, ll_file=ll_file, ll_oracle=float(want), dev_ll=abs(ll_mem - want) / max(1.0, abs(want)),
+                   dev_paths=abs(ll_mem - ll_file) / max(1.0, abs(want)))
+        capped = c["kkind"] == "default" and c["sK0sq"] * (c["P"] / c["P0"]) ** (-2.0 / 3.0) / (1 - c["e"] ** 2) > c["maxKsq"]
+        out["capped"] = bool(capped)
+        if not capped:
+            sg = ScriptedGen(ratio)
+            helper = _spy_helper(joker, data, sg)
+            chunk, _ = smp.pack(units=helper.internal_units, names=helper.packed_order)
+            with np.errstate(all="ignore"):
+                samples = make_full_samples_inmem(helper, np.ascontiguousarray(chunk, dtype=float), np.random.default_rng(1), n_linear_samples=1)
+            a_o, A_o = go.posterior(c2)
+            # kernel state is in the data's unit: parameter i has unit data/day^p; all slots scale by `ratio`
+            mean = np.array(sg.calls[0]["mean"], dtype=float) / ratio
+            cov = np.array(sg.calls[0]["cov"], dtype=float) / ratio ** 2
+            sc = np.sqrt(np.diag(A_o))
+            out["dev_mean"] = float(np.max(np.abs(mean - a_o) / sc))
+            out["dev_cov"] = float(np.max(np.abs(cov - A_o) / np.outer(sc, sc)))
+            # Bayes identity with a fixed linear vector x (a + one sigma in every slot): the row's unmarginalised likelihood comes
+            # from the real code (get_orbit), prior and posterior densities of x from the oracle
+            x = a_o + sc
+            row = samples[0:1].copy() if len(samples) else samples
+            names = ["K"] + slot_names
+            for k, nm in enumerate(names):
+                power = int(nm[1:]) if nm.startswith("v") and not nm.startswith("dv") else 0
+                phys = kms / u.day ** power if power else kms
+                row[nm] = (np.array([x[k]]) * phys).to(row[nm].unit)
+            from thejoker.data_helpers import validate_prepare_data
+            merged = validate_prepare_data(data, c["poly"], c["noff"])[0]
+            if c["noff"] == 0:
+                lnl = float(np.atleast_1d(row.ln_unmarginalized_likelihood(merged))[0])
+                lam_, mu_ = go.lam(c2), go.mu(c2)
+                lnprior = float(-0.5 * np.sum((x - mu_) ** 2 / lam_ + np.log(2 * np.pi * lam_)))
+                d = x - a_o
+                sign, logdet = np.linalg.slogdet(2 * np.pi * A_o)
+                lnpost = float(-0.5 * (d @ np.linalg.solve(A_o, d) + logdet))
+                # ln_unmarginalized_likelihood is in the data's unit as well (Jacobian N ln ratio)
+                # relative to the largest term: the identity is a difference of large numbers when the prior-mean residual is large
+                out["dev_bayes"] = abs(ll_mem - (lnl + lnprior - lnpost)) / max(1.0, abs(ll_mem), abs(lnl), abs(lnprior), abs(lnpost))
+        out["ok"] = True
+    except Exception as ex:
+        out["exc"] = "%s: %s" % (type(ex).__name__, str(ex)[:200])
+    return out
+
+
+def oracle_trace(case):
+    """the floating-point transcription (gauss_oracle) evaluated on a LATTICE configuration, dressed as Kernel / Draw / Orbit events of
+    family H: the GaussTrace monitor then says whether the transcription reproduces the specification's exact matrices.  A failing
+    clause is a machinery failure (the oracle is wrong), never a verdict about the code."""
+    from . import gauss_oracle as go
+    g = case["g"]
+    c = go.from_lattice(g)
+    Lg = 1 + g["poly"] + g["noff"]
+    x = [[101 + k, 1] for k in range(Lg)]
+    ev = [{"ev": "Cfg", "g": g, "ua": {}},
+          {"ev": "Kernel", "fam": "H", "B": rmat(go.B(c)), "b": rmat(go.bvec(c)), "finite": True, "llok": True, "apisame": True},
+          {"ev": "Orbit", "fam": "H", "tag": "", "x": x, "curve": rmat(go.curve(c, [101.0 + k for k in range(Lg)])), "lnlikeok": True,
+           "bayesok": True, "bayesspecok": True, "trefsame": True}]
+    # the specification's posterior state is the uncapped / capped K variance of the draw path = the marginal one (no deviation)
+    ev.insert(2, {"ev": "Draw", "fam": "H", "tag": "", "covfinite": True, "Ainv": rmat(go.ainv(c)), "rhs": rmat(go.rhs(c)), "covok": True,
+                  "ncalls": 1, "size": 1, "nlinear": 1, "outx": [], "sent": [], "thetasame": True})
+    return {"id": "oracle-" + case["id"], "events": ev}
+
+
+OFF_TOL = 1e-6      # observed on the unchanged tree: <= 2e-8 (Kepler solver tolerance at high eccentricity); structural faults: >> 1e-3
+
+
+def offlattice(ctx, family, n, key):
+    """run n random real-valued problems; `key` selects the deviation this property owns.  Returns the list of results."""
+    from . import core
+    res = core.pmap(realize_real, [{"id": "real-%s-%d" % (family, i), "seed": ctx.seed * 100000 + 7 * i + len(family)} for i in range(n)],
+                    chunksize=4)
+    worst = 0.0
+    used = 0
+    for r in res:
+        ctx.count()
+        if not r["ok"]:
+            ctx.fail("%s.OffLatticeProblemRaises" % family, r)
+            continue
+        for k, clause in key:
+            if k in r:
+                used += 1
+                worst = max(worst, r[k])
+                if not (r[k] <= OFF_TOL):
+                    ctx.fail("%s.%s" % (family, clause), r, detail={k: r[k]})
+        ctx.nontrivial(("real", r["seed"]))
+    ctx.notes["off_lattice_problems"] = len(res)
+    ctx.notes["off_lattice_comparisons"] = used
+    ctx.notes["off_lattice_largest_relative_deviation"] = worst
+    return res
